@@ -365,7 +365,7 @@ class Tie:
     def flush(self):
         run = self.run
         if self.batch and run.model is not None:
-            answers = run.model.ask([b[2] for b in self.batch])
+            answers = run.model.ask([b[2] for b in self.batch], chunk=16)
             for (stream, case, req, real, dom), m in zip(self.batch, answers):
                 run.traces += 1
                 if m != real:
